@@ -177,6 +177,8 @@ type sampler struct {
 	off      int
 	hi       *big.Int
 	tweak    bool
+	blk      int  // block length (0 = 32)
+	shift    uint // first byte >>= shift before the block is read as an integer
 	reads    []int
 	rejected int // blocks refused for being out of range
 	drawn    int // scalars handed out (more than one = an algorithm-level retry)
@@ -196,12 +198,19 @@ func (s *sampler) raw(n int) []byte {
 
 func (s *sampler) next() *big.Int {
 	for {
-		b := append([]byte{}, s.raw(32)...)
+		n := s.blk
+		if n == 0 {
+			n = 32
+		}
+		b := append([]byte{}, s.raw(n)...)
 		if s.short {
 			return big.NewInt(1)
 		}
 		if s.tweak {
 			b[1] ^= 0x42
+		}
+		if s.shift > 0 {
+			b[0] >>= s.shift
 		}
 		v := new(big.Int).SetBytes(b)
 		if v.Sign() > 0 && v.Cmp(s.hi) <= 0 {
@@ -256,7 +265,7 @@ var (
 )
 
 func baseMul(c *ref.Curve, k *big.Int) ref.Point {
-	key := c.N.Text(16)[:8] + k.Text(16)
+	key := c.N.Text(16) + "/" + k.Text(16)
 	bmMu.Lock()
 	if p, ok := bmCache[key]; ok {
 		bmMu.Unlock()
@@ -495,7 +504,7 @@ func selfTestReader() error {
 
 // drawBlocks draws 1..5 candidate blocks; about two thirds of the streams
 // start with a block outside [1, n-2] so that the sampling loop has to run.
-func drawBlocks(t *rapid.T, n *big.Int) []h.B {
+func drawBlocks(t *rapid.T, mk func(kind int, seed uint64) []byte) []h.B {
 	nb := rapid.IntRange(1, 5).Draw(t, "nblocks")
 	out := make([]h.B, nb)
 	for i := range out {
@@ -507,7 +516,7 @@ func drawBlocks(t *rapid.T, n *big.Int) []h.B {
 		} else {
 			kind = rapid.IntRange(0, numKinds-1).Draw(t, "kind")
 		}
-		out[i] = mkBlock(kind, n, rapid.Uint64().Draw(t, "bseed"))
+		out[i] = mk(kind, rapid.Uint64().Draw(t, "bseed"))
 	}
 	return out
 }
